@@ -51,12 +51,12 @@ def play_one_game(cfg, engine):
 
     while True:
         if position.ply > cfg.ply_limit:
-            log.result = 0.0
+            log.result = None
             break
 
         color, over = position.winner()
         if over is not None:
-            tree.result = color
+            log.result = color
             break
 
         tree = engine.analyze(position)
